@@ -204,7 +204,7 @@ class DistanceMatcher(BaseMatcher):
         logprob = -d_t ** 2 / beta
 
         # Penalties
-        if prev_m.edge_m.label == edge_m.label:
+        if prev_m.edge_m.key == edge_m.key:
             # Staying in same state
             if self.avoid_goingback and edge_m.key == prev_m.edge_m.key and edge_m.ti < prev_m.edge_m.ti:
                 # Going back on edge (direction is from p1 to p2 of the segment)
@@ -221,7 +221,7 @@ class DistanceMatcher(BaseMatcher):
                 # Goin back on state
                 going_back = False
                 for m in prev_m.prev:
-                    if edge_m.label == m.edge_m.label:
+                    if edge_m.key == m.edge_m.key:
                         going_back = True
                         break
                 if going_back:
